@@ -200,3 +200,35 @@ Definition run_mbi (p : profile) (bs : list byte) : list string :=
               ++ lines_tail p m r)%list
   | _ => lines
   end.
+
+(* elfname <region> <ext base> <ext bytes>: load, elf_sections_tag(), sections(), name() of every yielded section *)
+Fixpoint elfname_run (fuel : nat) (p : profile) (m ext : mem) (it : elf_iter) : list string :=
+  match fuel with
+  | O => [line "elfname_end" "UB"]
+  | S f =>
+      match elf_next (elf_fuel it) p m it with
+      | Val (Some s, it') =>
+          line "elfname" (sN (es_inner s) ++ " " ++ sRes sBytes (elf_name p m ext s)) :: elfname_run f p m ext it'
+      | Val (None, _) => [line "elfname_end" "VAL "]
+      | r => [line "elfname_end" (sRes (fun _ => "") r)]
+      end
+  end.
+
+Definition run_elfname (p : profile) (bs : list byte) (eb : N) (ebs : list byte) : list string :=
+  let m := {| m_base := 0; m_bytes := bs |} in
+  let ext := {| m_base := eb; m_bytes := ebs |} in
+  let '(l, lines) := run_mbi_core p m in
+  match l with
+  | Val r =>
+      (lines ++
+       match get_tag p KElfSections m r with
+       | Val (Some t) =>
+           match elf_sections p m t with
+           | Val i => line "elfname_sections" "VAL " :: elfname_run (S (elf_fuel i)) p m ext i
+           | x => [line "elfname_sections" (sRes (fun _ => "") x)]
+           end
+       | Val None => [line "elfname_sections" "none"]
+       | x => [line "elfname_sections" ("get " ++ sRes (fun _ => "") x)]
+       end)%list
+  | _ => lines
+  end.
